@@ -223,20 +223,33 @@ func VH_C14_RackAffinity(M, P, R int) {
 func VH_C14_LeaderAssignment(kind int) {
 	protocolName := []string{"range", "roundrobin"}[kind]
 	co := &vhCoordinator{filterTopics: true}
-	for _, t := range []string{"t1", "t2"} {
+	all := []string{"t1", "t2", "t3"}
+	for _, t := range all {
 		for p := 0; p < 2; p++ {
 			co.parts = append(co.parts, Partition{Topic: t, ID: p})
 		}
 	}
 	cg := &ConsumerGroup{config: ConsumerGroupConfig{ID: "g", Topics: []string{"t1"}, GroupBalancers: []GroupBalancer{RangeGroupBalancer{}, RoundRobinGroupBalancer{}}}}
-	subs := map[string][]string{"leader": {"t1"}, "m2": {"t1", "t2"}, "m3": {"t2"}}
+	// every member subscribes to one of these lists (any combination, so that a topic may be named first by a
+	// member that lists it after a topic already seen, in either order)
+	options := [][]string{{"t1"}, {"t2"}, {"t1", "t2"}, {"t2", "t1"}, {"t1", "t2", "t3"}, {"t3", "t1"}, {"t2", "t3"}}
+	subs := map[string][]string{}
 	join := joinGroupResponse{GroupProtocol: protocolName, LeaderID: "leader", MemberID: "leader"}
 	for _, id := range []string{"leader", "m2", "m3"} {
+		subs[id] = options[vhChoose("subscription_of_"+id, len(options))]
 		join.Members = append(join.Members, joinGroupResponseMember{MemberID: id, MemberMetadata: groupMetadata{Version: 1, Topics: subs[id]}.bytes()})
 	}
 	as, err := cg.assignTopicPartitions(co, join)
 	vhAssert(err == nil, "leader-assignment-ok")
-	for _, t := range []string{"t1", "t2"} {
+	for _, t := range all {
+		wanted := false
+		for _, l := range subs {
+			for _, s := range l {
+				if s == t {
+					wanted = true
+				}
+			}
+		}
 		for p := 0; p < 2; p++ {
 			owners := 0
 			for member, topics := range as {
@@ -253,7 +266,11 @@ func VH_C14_LeaderAssignment(kind int) {
 					}
 				}
 			}
-			vhAssert(owners == 1, "every-partition-of-every-subscribed-topic-has-exactly-one-owner")
+			if wanted {
+				vhAssert(owners == 1, "every-partition-of-every-subscribed-topic-has-exactly-one-owner")
+			} else {
+				vhAssert(owners == 0, "partitions-of-a-topic-nobody-subscribed-to-are-not-assigned")
+			}
 		}
 	}
 	vhReach("c14-leader-assignment")
